@@ -333,7 +333,7 @@ func c18GenBarePods(g *c18G, w int, m *c18Meta) c18Workload {
 }
 
 func c18GenSpark(g *c18G, w int, m *c18Meta) c18Workload {
-	sel := "spark-" + g.pick("sparkSel", "aaa", "bbb")
+	sel := g.name("spark-app") // spark-app-selector is unique per application
 	role := map[string]string{"spark-app-name": "app", "spark-app-selector": sel}
 	drv := g.addPod(w, g.name("spark-driver"), nil, m, c18PodOpt{role: c18Copy(role, map[string]string{"spark-role": "driver"}), key: "app", wantName: sel})
 	drv.Labels = c18Copy(drv.Labels, m.ownerLabels)
@@ -1093,6 +1093,13 @@ func c18GenCase(t *rapid.T) *c18Case {
 		wl := sh.gen(g, w, m)
 		wl.Shape = sh.name
 		c.Workloads = append(c.Workloads, wl)
+	}
+	if g.chance(1, "hetero") && g.chance(5, "hetero2") {
+		// observation only (see c18Case.Hetero): one pod gets scheduling labels of its own
+		c.Hetero = true
+		i := g.u(len(c.Pods), "heteroPod")
+		extra, _ := g.schedLabels("hetero", 6)
+		c.Pods[i].Labels = c18Copy(c.Pods[i].Labels, extra)
 	}
 	n := len(c.Pods)
 	c.OrderA = g.order(n, "orderA")
